@@ -42,8 +42,12 @@ def one(diff: Path) -> dict:
             finally:
                 shutil.rmtree(ev, ignore_errors=True)
 
-        with ThreadPoolExecutor(max_workers=10) as ex:
-            for prop, r in ex.map(chk, PROPS):
+        # the first check normalises the scratch tree and stores it in the cache; the others load it
+        first = chk(PROPS[0])
+        if first[1]:
+            bad[first[0]] = first[1]
+        with ThreadPoolExecutor(max_workers=16) as ex:
+            for prop, r in ex.map(chk, PROPS[1:]):
                 if r:
                     bad[prop] = r
         return {"diff": str(diff), "status": "FALSE-ALARM" if bad else "silent", "alarms": bad}
